@@ -214,7 +214,7 @@ def run(ctx):
     with instr:
         n = ctx.pick({"quick": 500, "thorough": 15000})
         for it in range(n):
-            if not ctx.budget_ok():
+            if it >= 12 and not ctx.budget_ok():
                 break
             kind = ["threadlocal", "per_thread", "shared"][it % 3]
             progs = [gen_prog(rng, rng.randint(3, 7)) for _ in range(rng.randint(2, 4))]
